@@ -158,7 +158,7 @@ theorem remargin_first (fs : List Bool) (l : Line) (ls : List Line) :
       if isCodeLine (expandTabs 0 l) then
         (expandTabs 0 l).dropWhile isBlank :: Spec.remargin fs (some (margin (expandTabs 0 l))) ls
       else expandTabs 0 l :: Spec.remargin fs none ls := by
-  simp only [Spec.remargin, Bool.false_eq_true, if_false]
+  simp only [Spec.remargin, Bool.false_eq_true, if_false, nextMargin_none]
   split
   · have : ∀ x : Line, replaceMargin (some (margin x)) [] x = x.dropWhile isBlank := by
       intro x
@@ -181,5 +181,368 @@ theorem expandTabs_id : ∀ (col : Nat) (l : Line), (∀ c ∈ l, c ≠ '\t' ∧
       have hc := h c (by simp)
       simp only [expandTabs, hc.1, hc.2.1, hc.2.2, or_self, if_false]
       rw [expandTabs_id _ r (fun x hx => h x (by simp [hx]))]
+
+/-! ### the printer side -/
+
+def b2n (b : Bool) : Nat := if b then 1 else 0
+
+theorem countTriples_skip (c : Char) (r : Line)
+    (h1 : ∀ r', c = '"' → r = '"' :: '"' :: r' → False) (h2 : ∀ r', c = '\'' → r = '\'' :: '\'' :: r' → False) :
+    countTriples (c :: r) = countTriples r := by
+  rw [countTriples.eq_def]
+  split
+  · rename_i r' heq; simp only [List.cons.injEq] at heq; exact absurd heq.2 (fun e => h1 r' heq.1 e)
+  · rename_i r' heq; simp only [List.cons.injEq] at heq; exact absurd heq.2 (fun e => h2 r' heq.1 e)
+  · rename_i heq; simp only [List.cons.injEq] at heq; rw [heq.2]
+  · rename_i heq; simp at heq
+
+/-- on a line free of the printer-specific hazards the parity of the triple quotes counted by `_in_multi_line` is
+exactly "the triple-quote state flips" -/
+theorem count_parity (t : Option Q) (l : Line) (h : scanHazardP t l = false) :
+    (countTriples l + b2n t.isSome) % 2 = b2n (scanTriple t l).isSome := by
+  fun_induction scanTriple t l
+  case case1 s => cases s <;> simp [countTriples, b2n]
+  case case2 r =>
+    have : countTriples r = 0 := by simpa [scanHazardP] using h
+    simp [countTriples_skip '#' r (by simp) (by simp), this, b2n]
+  case case3 r ih =>
+    have := ih (by simpa [scanHazardP] using h)
+    simp only [countTriples, b2n, Option.isSome_none, Option.isSome_some, Bool.false_eq_true, if_false, if_true] at this ⊢
+    omega
+  case case4 r ih =>
+    have := ih (by simpa [scanHazardP] using h)
+    simp only [countTriples, b2n, Option.isSome_none, Option.isSome_some, Bool.false_eq_true, if_false, if_true] at this ⊢
+    omega
+  case case5 c r h1 h2 h3 ih =>
+    have hh : scanHazardP none r = false := by
+      unfold scanHazardP at h
+      split at h <;> simp_all
+    rw [countTriples_skip c r h2 h3]; exact ih hh
+  case case6 r ih =>
+    have := ih (by simpa [scanHazardP] using h)
+    simp only [countTriples, b2n, Option.isSome_none, Option.isSome_some, Bool.false_eq_true, if_false, if_true] at this ⊢
+    omega
+  case case7 r ih =>
+    have := ih (by simpa [scanHazardP] using h)
+    simp only [countTriples, b2n, Option.isSome_none, Option.isSome_some, Bool.false_eq_true, if_false, if_true] at this ⊢
+    omega
+  case case8 q c r h1 h2 ih =>
+    have hh : scanHazardP (some q) r = false ∧ (∀ r', c = '"' → r = '"' :: '"' :: r' → False)
+        ∧ (∀ r', c = '\'' → r = '\'' :: '\'' :: r' → False) := by
+      cases q
+      · refine ⟨?_, fun r' a b => h1 r' rfl a b, ?_⟩
+        · unfold scanHazardP at h; split at h <;> simp_all
+        · intro r' a b; subst a b; simp [scanHazardP] at h
+      · refine ⟨?_, ?_, fun r' a b => h2 r' rfl a b⟩
+        · unfold scanHazardP at h; split at h <;> simp_all
+        · intro r' a b; subst a b; simp [scanHazardP] at h
+    rw [countTriples_skip c r hh.2.1 hh.2.2]; exact ih hh.1
+
+/-- the printer's two flags against the state of `adjust_whitespace`'s machine -/
+def PRel (st : MLState) (p : Bool × Bool) : Prop := p.1 = st.backslashed ∧ p.2 = st.triple.isSome
+
+theorem prel_init : PRel .init (false, false) := ⟨rfl, rfl⟩
+
+theorem prel_step {st : MLState} {p : Bool × Bool} (h : PRel st p) (l : Line)
+    (hz : scanHazardP st.triple l = false) :
+    (pStep p l).1 = (stepLine st l).1 ∧ PRel (stepLine st l).2 (pStep p l).2 := by
+  obtain ⟨h1, h2⟩ := h
+  have hp := count_parity st.triple l hz
+  refine ⟨by simp [pStep, stepLine, h1, h2], by simp [pStep, stepLine], ?_⟩
+  simp only [pStep, stepLine, h2]
+  cases ha : st.triple.isSome <;> cases hb : (scanTriple st.triple l).isSome <;>
+    simp only [ha, hb, b2n, if_true, if_false, Bool.false_eq_true] at hp ⊢ <;> split <;> simp <;> omega
+
+theorem flush_agree (ind : Line) : ∀ (ls : List Line) (m : Mode) (st : MLState) (p : Bool × Bool)
+    (mg : Option Line), Rel m st → PRel st p → hazardFreeFrom m ls = true →
+    printerHazardFreeFrom st.triple ls = true →
+    flushLoop ind p mg ls = Spec.reindent ind (Spec.multiFlagsFrom m ls) mg ls
+  | [], _, _, _, _, _, _, _, _ => by simp [flushLoop, Spec.reindent]
+  | l :: r, m, st, p, mg, h, hp, hz, hzp => by
+      simp only [hazardFreeFrom, Bool.and_eq_true, Bool.not_eq_true'] at hz
+      simp only [printerHazardFreeFrom, Bool.and_eq_true, Bool.not_eq_true'] at hzp
+      obtain ⟨hf, hp'⟩ := prel_step hp l hzp.1
+      have ih := fun mg' => flush_agree ind r (lexLine m l) (stepLine st l).2 (pStep p l).2 mg'
+        (rel_step h l hz.1) hp' hz.2 (by simpa [stepLine] using hzp.2)
+      simp only [flushLoop, Spec.multiFlagsFrom, Spec.reindent, hf, rel_flag h l, ih]
+
+/-! ### what `Spec.reindent` guarantees, whatever the flags -/
+
+theorem reindent_length (ind : Line) : ∀ (fl : List Bool) (m : Option Line) (ls : List Line),
+    (Spec.reindent ind fl m ls).length = ls.length
+  | _, _, [] => by simp [Spec.reindent]
+  | [], _, _ :: _ => by simp [Spec.reindent]
+  | f :: fs, m, l :: ls => by
+      simp only [Spec.reindent]
+      split <;> simp [reindent_length]
+
+theorem reindent_inside (ind : Line) : ∀ (fl : List Bool) (m : Option Line) (ls : List Line) (i : Nat),
+    fl[i]? = some true → (Spec.reindent ind fl m ls)[i]? = ls[i]?
+  | _, _, [], _, _ => by simp [Spec.reindent]
+  | [], _, _ :: _, _, h => by simp at h
+  | f :: fs, m, l :: ls, 0, h => by
+      simp only [List.getElem?_cons_zero, Option.some.injEq] at h
+      simp [Spec.reindent, h]
+  | f :: fs, m, l :: ls, i + 1, h => by
+      simp only [List.getElem?_cons_succ] at h
+      simp only [Spec.reindent]
+      split <;> simp [reindent_inside ind fs _ ls i h]
+
+theorem reindent_outside (ind : Line) : ∀ (fl : List Bool) (M : Line) (ls : List Line) (i : Nat) (l : Line),
+    fl[i]? = some false → ls[i]? = some l →
+    (Spec.reindent ind fl (some M) ls)[i]? = some (pIndentLine (some M) ind (expandTabs 0 l))
+  | _, _, [], _, _, _, h => by simp at h
+  | [], _, _ :: _, _, _, h, _ => by simp at h
+  | f :: fs, M, l0 :: ls, 0, l, h, hl => by
+      simp only [List.getElem?_cons_zero, Option.some.injEq] at h hl
+      simp [Spec.reindent, h, hl]
+  | f :: fs, M, l0 :: ls, i + 1, l, h, hl => by
+      simp only [List.getElem?_cons_succ] at h hl
+      simp only [Spec.reindent]
+      split <;> simp [reindent_outside ind fs M ls i l h hl]
+
+/-- `_indent_line` puts the target indentation in place of exactly the margin -/
+theorem pIndentLine_replace (M ind l : Line) (h : M.isPrefixOf l = true) :
+    pIndentLine (some M) ind l = ind ++ l.drop M.length := by
+  unfold pIndentLine
+  split
+  · rename_i hm; simp only [Option.some.injEq] at hm; subst hm; simp
+  · simp [replaceMargin, h]
+
+/-! ### composition: lexer-side re-margining, then printer-side re-indentation -/
+
+def Blanks (P : Line) : Prop := ∀ c ∈ P, isBlank c = true
+
+theorem isBlank_cases {c : Char} (h : isBlank c = true) : c = ' ' ∨ c = '\t' := by
+  simpa [isBlank] using h
+
+theorem lexLine_blanks : ∀ (P x : Line), Blanks P → lexLine .code (P ++ x) = lexLine .code x
+  | [], _, _ => rfl
+  | c :: P, x, h => by
+      have ih := lexLine_blanks P x (fun d hd => h d (by simp [hd]))
+      rcases isBlank_cases (h c (by simp)) with rfl | rfl
+      · cases hP : P ++ x with
+        | nil => simp [hP] at ih ⊢; simp [lexLine, ← ih]
+        | cons d y => simp only [List.cons_append, hP, lexLine] at ih ⊢; exact ih
+      · cases hP : P ++ x with
+        | nil => simp [hP] at ih ⊢; simp [lexLine, ← ih]
+        | cons d y => simp only [List.cons_append, hP, lexLine] at ih ⊢; exact ih
+
+theorem blank_step_lineHazard {c : Char} (hc : isBlank c = true) (y : Line) :
+    lineHazard .code (c :: y) = lineHazard .code y := by
+  rcases isBlank_cases hc with rfl | rfl <;> cases y <;> simp [lineHazard]
+
+theorem blank_step_scanTriple {c : Char} (hc : isBlank c = true) (y : Line) :
+    scanTriple none (c :: y) = scanTriple none y := by
+  rcases isBlank_cases hc with rfl | rfl <;> simp [scanTriple]
+
+theorem blank_step_scanHazardP {c : Char} (hc : isBlank c = true) (y : Line) :
+    scanHazardP none (c :: y) = scanHazardP none y := by
+  rcases isBlank_cases hc with rfl | rfl <;> simp [scanHazardP]
+
+theorem lineHazard_blanks : ∀ (P x : Line), Blanks P → lineHazard .code (P ++ x) = lineHazard .code x
+  | [], _, _ => rfl
+  | c :: P, x, h => by
+      rw [List.cons_append, blank_step_lineHazard (h c (by simp)), lineHazard_blanks P x (fun d hd => h d (by simp [hd]))]
+
+theorem scanTriple_blanks : ∀ (P x : Line), Blanks P → scanTriple none (P ++ x) = scanTriple none x
+  | [], _, _ => rfl
+  | c :: P, x, h => by
+      rw [List.cons_append, blank_step_scanTriple (h c (by simp)), scanTriple_blanks P x (fun d hd => h d (by simp [hd]))]
+
+theorem scanHazardP_blanks : ∀ (P x : Line), Blanks P → scanHazardP none (P ++ x) = scanHazardP none x
+  | [], _, _ => rfl
+  | c :: P, x, h => by
+      rw [List.cons_append, blank_step_scanHazardP (h c (by simp)),
+        scanHazardP_blanks P x (fun d hd => h d (by simp [hd]))]
+
+theorem ewb_blanks : ∀ (P x : Line), Blanks P → endsWithBackslash (P ++ x) = endsWithBackslash x
+  | [], _, _ => rfl
+  | c :: P, x, h => by
+      have ih := ewb_blanks P x (fun d hd => h d (by simp [hd]))
+      have hc : c ≠ '\\' := by rcases isBlank_cases (h c (by simp)) with rfl | rfl <;> decide
+      cases hP : P ++ x with
+      | nil =>
+        have hx : x = [] := by cases P <;> simp_all
+        have hp : P = [] := by cases P <;> simp_all
+        subst hx hp
+        simp [hc]
+      | cons d y => rw [List.cons_append, hP, ewb_cons_cons, ← hP, ih]
+
+/-- no TAB, LF or CR in the line: tab expansion leaves it alone -/
+abbrev NoTabs (l : Line) : Prop := ∀ c ∈ l, c ≠ '\t' ∧ c ≠ '\n' ∧ c ≠ '\r'
+
+theorem margin_blanks : ∀ (l : Line), Blanks (margin l)
+  | [] => fun _ h => by simp [margin] at h
+  | c :: r => by
+      intro d hd
+      by_cases hc : isBlank c
+      · simp only [margin, List.takeWhile, hc, List.mem_cons] at hd
+        rcases hd with rfl | hd
+        · exact hc
+        · exact margin_blanks r d hd
+      · simp [margin, List.takeWhile, hc] at hd
+
+theorem replaceMargin_split (m : Option Line) (hm : ∀ M, m = some M → Blanks M) (l : Line) :
+    ∃ P, Blanks P ∧ l = P ++ replaceMargin m [] l := by
+  cases m with
+  | none => exact ⟨[], fun _ h => by simp at h, by simp [replaceMargin]⟩
+  | some M =>
+    simp only [replaceMargin, List.nil_append]
+    split
+    · rename_i h
+      have hp : M <+: l := List.isPrefixOf_iff_prefix.mp h
+      obtain ⟨t, rfl⟩ := hp
+      exact ⟨M, hm M rfl, by simp⟩
+    · exact ⟨[], fun _ h => by simp at h, by simp⟩
+
+theorem replaceMargin_noTabs (m : Option Line) (l : Line) (h : NoTabs l) : NoTabs (replaceMargin m [] l) := by
+  cases m with
+  | none => simpa [replaceMargin] using h
+  | some M =>
+    simp only [replaceMargin, List.nil_append]
+    split
+    · intro c hc; exact h c (List.mem_of_mem_drop hc)
+    · exact h
+
+/-- the margin in force is made of blanks -/
+def MarginOK (m : Option Line) : Prop := ∀ M, m = some M → Blanks M
+
+theorem marginOK_next (m : Option Line) (hm : MarginOK m) (l : Line) : MarginOK (nextMargin m l) := by
+  cases m with
+  | some x => exact hm
+  | none =>
+    intro M hM
+    simp only [nextMargin] at hM
+    split at hM
+    · simp only [Option.some.injEq] at hM; subst hM; exact margin_blanks l
+    · simp at hM
+
+/-- re-margining a hazard-free tab-free block leaves its lexical structure alone: the result is hazard-free (for
+both guards) and every line starts in the same mode -/
+theorem remargin_preserves : ∀ (ls : List Line) (m0 : Mode) (mg : Option Line), MarginOK mg →
+    (∀ l ∈ ls, NoTabs l) → hazardFreeFrom m0 ls = true → printerHazardFreeFrom (tripleOf m0) ls = true →
+    hazardFreeFrom m0 (Spec.remargin (Spec.multiFlagsFrom m0 ls) mg ls) = true
+    ∧ printerHazardFreeFrom (tripleOf m0) (Spec.remargin (Spec.multiFlagsFrom m0 ls) mg ls) = true
+    ∧ Spec.multiFlagsFrom m0 (Spec.remargin (Spec.multiFlagsFrom m0 ls) mg ls) = Spec.multiFlagsFrom m0 ls
+  | [], _, _, _, _, _, _ => by simp [Spec.remargin, Spec.multiFlagsFrom, hazardFreeFrom, printerHazardFreeFrom]
+  | l :: r, m0, mg, hmg, hnt, hz, hzp => by
+      simp only [hazardFreeFrom, Bool.and_eq_true, Bool.not_eq_true'] at hz
+      simp only [printerHazardFreeFrom, Bool.and_eq_true, Bool.not_eq_true'] at hzp
+      have hsim := (lex_sim m0 l hz.1).1
+      have hnt' : ∀ l' ∈ r, NoTabs l' := fun l' h' => hnt l' (by simp [h'])
+      by_cases hin : m0.inside = true
+      · have ih := remargin_preserves r (lexLine m0 l) mg hmg hnt' hz.2 (by rw [← hsim]; exact hzp.2)
+        simp only [Spec.multiFlagsFrom, Spec.remargin, hin, if_true, hazardFreeFrom, printerHazardFreeFrom, hz.1,
+          hzp.1, Bool.not_false, Bool.true_and]
+        rw [hsim]
+        exact ⟨ih.1, ih.2.1, by rw [ih.2.2]⟩
+      · have hcode : m0 = .code := by cases m0 <;> simp_all [Mode.inside]
+        subst hcode
+        have hexp : expandTabs 0 l = l := expandTabs_id 0 l (hnt l (by simp))
+        have hmg' := marginOK_next mg hmg l
+        obtain ⟨P, hP, hl⟩ := replaceMargin_split _ hmg' l
+        have ih := remargin_preserves r (lexLine .code l) _ hmg' hnt' hz.2 (by rw [← hsim]; exact hzp.2)
+        have htc : tripleOf Mode.code = none := rfl
+        simp only [Spec.multiFlagsFrom, Spec.remargin, Mode.inside, Bool.false_eq_true, if_false, hexp,
+          hazardFreeFrom, printerHazardFreeFrom, htc] at ih ⊢
+        generalize hx : replaceMargin (nextMargin mg l) [] l = x at hl ih ⊢
+        have e1 : lexLine .code x = lexLine .code l := by rw [hl]; exact (lexLine_blanks P x hP).symm
+        have e2 : lineHazard .code x = lineHazard .code l := by rw [hl]; exact (lineHazard_blanks P x hP).symm
+        have e3 : scanTriple none x = scanTriple none l := by rw [hl]; exact (scanTriple_blanks P x hP).symm
+        have e4 : scanHazardP none x = scanHazardP none l := by rw [hl]; exact (scanHazardP_blanks P x hP).symm
+        have hz1 : lineHazard .code l = false := hz.1
+        have hzp1 : scanHazardP none l = false := by simpa [tripleOf] using hzp.1
+        have hs' : scanTriple none l = tripleOf (lexLine .code l) := by simpa [tripleOf] using hsim
+        rw [e1, e2, e3, e4, hz1, hzp1, hs']
+        exact ⟨by simpa using ih.1, by simpa using ih.2.1, by rw [ih.2.2]⟩
+
+theorem dropWhile_takeWhile_nil (p : Char → Bool) : ∀ l : Line, (l.dropWhile p).takeWhile p = []
+  | [] => rfl
+  | c :: r => by
+      by_cases hc : p c
+      · simp [List.dropWhile, hc, dropWhile_takeWhile_nil p r]
+      · simp [List.dropWhile, List.takeWhile, hc]
+
+theorem dropWhile_idem (p : Char → Bool) : ∀ l : Line, (l.dropWhile p).dropWhile p = l.dropWhile p
+  | [] => rfl
+  | c :: r => by
+      by_cases hc : p c
+      · simp [List.dropWhile, hc, dropWhile_idem p r]
+      · simp [List.dropWhile, hc]
+
+theorem replaceMargin_margin (x : Line) : replaceMargin (some (margin x)) [] x = x.dropWhile isBlank := by
+  have hp : (List.takeWhile isBlank x).isPrefixOf x = true := by
+    simp [List.isPrefixOf_iff_prefix, List.takeWhile_prefix]
+  simp only [replaceMargin, margin, hp, if_true, List.nil_append]
+  exact drop_takeWhile_length isBlank x
+
+/-- the printer's pass over what the lexer's pass produced, for any flags: "strip the margin, put the target
+indentation in front" -/
+theorem reindent_remargin (ind : Line) : ∀ (fl : List Bool) (ls : List Line) (mg mp : Option Line),
+    (∀ l ∈ ls, NoTabs l) → ((mg = none ∧ mp = none) ∨ ((∃ M, mg = some M) ∧ mp = some [])) →
+    Spec.reindent ind fl mp (Spec.remargin fl mg ls) = Spec.roundtrip ind fl mg ls
+  | _, [], _, _, _, _ => by simp [Spec.remargin, Spec.reindent, Spec.roundtrip]
+  | [], _ :: _, _, _, _, _ => by simp [Spec.remargin, Spec.reindent, Spec.roundtrip]
+  | true :: fs, l :: ls, mg, mp, hnt, hm => by
+      simp only [Spec.remargin, Spec.reindent, Spec.roundtrip, if_true]
+      rw [reindent_remargin ind fs ls mg mp (fun l' h' => hnt l' (by simp [h'])) hm]
+  | false :: fs, l :: ls, mg, mp, hnt, hm => by
+      have hexp : expandTabs 0 l = l := expandTabs_id 0 l (hnt l (by simp))
+      have hnt' : ∀ l' ∈ ls, NoTabs l' := fun l' h' => hnt l' (by simp [h'])
+      simp only [Spec.remargin, Spec.reindent, Spec.roundtrip, Bool.false_eq_true, if_false, hexp]
+      rcases hm with ⟨rfl, rfl⟩ | ⟨⟨M, rfl⟩, rfl⟩
+      · by_cases hc : isCodeLine l = true
+        · -- the first code line: it fixes the margin and loses it; what is left starts with a non-blank
+          simp only [nextMargin, hc, if_true, replaceMargin_margin]
+          have hx : expandTabs 0 (l.dropWhile isBlank) = l.dropWhile isBlank :=
+            expandTabs_id 0 _ (fun c h => hnt l (by simp) c ((List.dropWhile_sublist isBlank).subset h))
+          have hcx : isCodeLine (l.dropWhile isBlank) = true := by
+            simpa [isCodeLine, dropWhile_idem] using hc
+          have hmx : margin (l.dropWhile isBlank) = [] := dropWhile_takeWhile_nil isBlank l
+          simp only [hx, hcx, if_true, hmx, pIndentLine, nextMargin]
+          rw [reindent_remargin ind fs ls (some (margin l)) (some []) hnt' (Or.inr ⟨⟨_, rfl⟩, rfl⟩)]
+        · simp only [nextMargin, hc, Bool.false_eq_true, if_false, replaceMargin, hexp, pIndentLine, reduceCtorEq]
+          rw [reindent_remargin ind fs ls none none hnt' (Or.inl ⟨rfl, rfl⟩)]
+      · have hx : expandTabs 0 (replaceMargin (some M) [] l) = replaceMargin (some M) [] l :=
+          expandTabs_id 0 _ (replaceMargin_noTabs (some M) l (hnt l (by simp)))
+        simp only [nextMargin, hx, pIndentLine, if_true]
+        rw [reindent_remargin ind fs ls (some M) (some []) hnt' (Or.inr ⟨⟨_, rfl⟩, rfl⟩)]
+
+theorem roundtrip_inside (ind : Line) : ∀ (fl : List Bool) (m : Option Line) (ls : List Line) (i : Nat),
+    fl[i]? = some true → (Spec.roundtrip ind fl m ls)[i]? = ls[i]?
+  | _, _, [], _, _ => by simp [Spec.roundtrip]
+  | [], _, _ :: _, _, h => by simp at h
+  | f :: fs, m, l :: ls, 0, h => by
+      simp only [List.getElem?_cons_zero, Option.some.injEq] at h
+      simp [Spec.roundtrip, h]
+  | f :: fs, m, l :: ls, i + 1, h => by
+      simp only [List.getElem?_cons_succ] at h
+      simp only [Spec.roundtrip]
+      split <;> simp [roundtrip_inside ind fs _ ls i h]
+
+theorem roundtrip_outside (ind : Line) : ∀ (fl : List Bool) (M : Line) (ls : List Line) (i : Nat) (l : Line),
+    fl[i]? = some false → ls[i]? = some l →
+    (Spec.roundtrip ind fl (some M) ls)[i]? = some (ind ++ replaceMargin (some M) [] l)
+  | _, _, [], _, _, _, h => by simp at h
+  | [], _, _ :: _, _, _, h, _ => by simp at h
+  | f :: fs, M, l0 :: ls, 0, l, h, hl => by
+      simp only [List.getElem?_cons_zero, Option.some.injEq] at h hl
+      simp [Spec.roundtrip, h, hl]
+  | f :: fs, M, l0 :: ls, i + 1, l, h, hl => by
+      simp only [List.getElem?_cons_succ] at h hl
+      simp only [Spec.roundtrip]
+      split <;> simp [roundtrip_outside ind fs M ls i l h hl]
+
+/-- lexer-side pass, then printer-side pass, on a hazard-free tab-free block -/
+theorem roundtrip_agree (ind : Line) (ls : List Line) (hnt : ∀ l ∈ ls, NoTabs l)
+    (hz : hazardFree ls = true) (hzp : printerHazardFree ls = true) :
+    flushLoop ind (false, false) none (adjustLoop .init none ls)
+      = Spec.roundtrip ind (Spec.multiFlags ls) none ls := by
+  have h0 : MarginOK none := fun _ h => by simp at h
+  obtain ⟨p1, p2, p3⟩ := remargin_preserves ls .code none h0 hnt hz hzp
+  rw [adjust_agree ls .code .init none rel_init hz]
+  rw [flush_agree ind _ .code .init (false, false) none rel_init prel_init p1 p2, p3]
+  exact reindent_remargin ind _ ls none none hnt (Or.inl ⟨rfl, rfl⟩)
 
 end MakoModel.PyExpr.Ws
